@@ -527,27 +527,24 @@ def plan(tier):
             out.append((kind, "w3", (1, 1), None, True))
         out.append(("cts", "w3", (2, 0), None, False))
         return out
+    # thorough = the quick plan plus deeper / wider harnesses (sizes measured; each shard is
+    # additionally capped, and a hit cap is reported in the evidence)
+    out = plan("quick")
     for kind in ("cts", "csts"):
-        out.append((kind, "w2", (3, 1), None, False))
-        out.append((kind, "w3", (2, 1), None, False))
-        out.append((kind, "w3", (3, 0), None, False))
+        out.append((kind, "w2", (3, 0), None, False))
         out.append((kind, "w2raise", (2, 1), None, False))
-        out.append((kind, "w2raise", (3, 0), None, False))
-        out.append((kind, "w1", (99, 1), None, False))
-        out.append((kind, "w1empty", (99, 1), None, False))
-        out.append((kind, "w2", (3, 0), 0, False))
-        out.append((kind, "w2", (3, 0), 1, False))
-        out.append((kind, "w2", (3, 0), 2, False))
-        out.append((kind, "w3", (2, 0), 2, False))
-        out.append((kind, "w2", (3, 1), None, True))
-        out.append((kind, "w3", (2, 1), None, True))
-        out.append((kind, "w2x2", (2, 1), None, False))
-        out.append((kind, "w3x1", (2, 0), None, False))
+        out.append((kind, "w2x2", (2, 0), None, False))
+        out.append((kind, "w2x2", (1, 1), None, False))
         out.append((kind, "w3x1", (1, 1), None, False))
-        out.append((kind, "w4", (2, 0), None, False))
-        out.append((kind, "w4", (1, 1), None, False))
-        out.append((kind, "w2x2", (2, 1), None, True))
+        out.append((kind, "w4", (1, 0), None, False))
+        out.append((kind, "w3", (2, 0), 2, False))
+        out.append((kind, "w2x2", (1, 1), None, True))
+    out.append(("csts", "w3", (2, 0), None, False))
+    out.append(("cts", "w3x1", (2, 0), None, False))
     return out
+
+
+SHARD_CAP = 40000
 
 
 def shards(tier):
@@ -584,7 +581,9 @@ def run_shard(shard, tier, seed):
                 {"kind": kind, "config": config, "faults": faults, "iter_fault": iter_fault, "interrupt": interrupt, "choices": ch.choices},
             )
 
-    stats = explore(lambda ch: c12._W(run_one(ch)), lambda ch, o: check(ch, o.v), bound, prefix=prefix or (), root_only=prefix is None, order_seed=seed)
+    stats = explore(lambda ch: c12._W(run_one(ch)), lambda ch, o: check(ch, o.v), bound, prefix=prefix or (), root_only=prefix is None, order_seed=seed, max_exec=SHARD_CAP)
+    if stats.capped:
+        res.caps_hit.append("%s prefix %r: stopped after %d schedules" % (label, prefix, SHARD_CAP))
     res.states += stats.choice_points + (1 if prefix is None else 0)
     res.transitions += stats.edges + (0 if prefix is None else 1)
     res.traces_validated += stats.executions
